@@ -42,6 +42,9 @@ func genC06(g gen.G) C06Case {
 	if g.Chance(35) {
 		o.Edits = 0
 	}
+	if g.Chance(30) {
+		o.Schema.HookPct = 40
+	}
 	if g.Chance(25) {
 		// population stress: candidate lists below, at and above the limit of 100
 		o.Schema.Huge = true
